@@ -16,7 +16,7 @@ import random
 from harness import absval, core, repo
 from harness.repo import Cell
 
-KINDS = ['int', 'float', 'bool', 'one', 'text', 'datetime', 'negint', 'zero', 'array', 'date', 'boolf', 'bigint']
+KINDS = ['int', 'float', 'bool', 'one', 'text', 'datetime', 'negint', 'zero', 'array', 'date', 'boolf', 'bigint', 'eqtext']
 
 
 def planted(kind, c, r):
@@ -43,6 +43,8 @@ def planted(kind, c, r):
         return datetime.date(2024, 2, 1) + datetime.timedelta(days=(c + r) % 20)
     if kind == 'bigint':
         return 2 ** 40 + (c % 97)
+    if kind == 'eqtext':       # a TEXT cell whose text starts with '=' (typed with a leading apostrophe in Excel): stored type is text
+        return f'={c % 97}+{r}'
     if kind == 'array':
         from openpyxl.worksheet.formula import ArrayFormula
         return ArrayFormula(f'{repo.col_letters(c)}{r}', f'=SUM({c % 97},{r})')
@@ -98,7 +100,9 @@ def _job(args):
             for sh in rec['sheets']:
                 ws = wb.create_sheet(sh['title'])
                 for cell in sorted(sh['cells'], key=lambda q: (q['r'], q['c'])):
-                    ws.cell(row=cell['r'], column=cell['c'], value=planted(cell['k'], cell['c'], cell['r']))
+                    oc = ws.cell(row=cell['r'], column=cell['c'], value=planted(cell['k'], cell['c'], cell['r']))
+                    if cell['k'] == 'eqtext':
+                        oc.data_type = 's'
             wb.save(x)
             ev = {'sheets': rec['sheets'], 'titles': [], 'sizes': [], 'cells': [], 'err': ''}
             try:
